@@ -574,7 +574,13 @@ impl fmt::Display for Expr {
                 left,
                 operator,
                 right,
-            } => write!(f, "{left}{}{right}", &operator.lexeme),
+            } => match &operator.kind {
+                // dot and cross may be spelled as words, which must not fuse with their operands
+                TokenKind::Dot | TokenKind::Cross => {
+                    write!(f, "{left} {} {right}", &operator.lexeme)
+                }
+                _ => write!(f, "{left}{}{right}", &operator.lexeme),
+            },
             Expr::Unary { operator, operand } => match &operator.kind {
                 TokenKind::Bang => write!(f, "{operand}{}", &operator.lexeme),
                 _ => write!(f, "{}{operand}", &operator.lexeme),
